@@ -235,3 +235,108 @@ def fault_free_shape(call):
     if v == "update" and res == "statefulsets":
         return "update statefulsets/status"
     return "%s %s %s" % (v, res, call["name"])
+
+
+# ------------------------------------------------------------------------------------------------
+# generic engine for the properties decided on one reconcile of a snapshot
+# ------------------------------------------------------------------------------------------------
+def correspond_proj(ctx, family, scs, outs, check_expr, model_expr):
+    """like correspond(), with a property-specific projection (check_expr : recon_case -> bool)"""
+    terms, idx = [], []
+    for i, (sc, out) in enumerate(zip(scs, outs)):
+        obs = out["steps"][0]
+        t = render_case(sc, obs, hashes_of(out), None)
+        if t is None:
+            ctx.corr_breaks.append({"family": family, "input": sc, "observed": obs,
+                                    "model": "the implementation issued a call the model cannot produce"})
+            continue
+        terms.append(t)
+        idx.append(i)
+    mm = core.coq_mismatches(family.replace("/", "_"), IMPORTS, "recon_case", check_expr, terms, shard_size=25)
+    for j in mm[:10]:
+        i = idx[j]
+        mv = core.coq_eval("mm_" + family.replace("/", "_"), IMPORTS, ["%s (%s)" % (model_expr, terms[j])])
+        ctx.corr_breaks.append({"family": family, "input": scs[i], "observed": outs[i]["steps"][0], "model": mv})
+    ctx.traces_validated += len(terms)
+    return len(terms), len(mm)
+
+
+def run_reconcile_property(ctx, depth, pid, pi, monitor, cmp_outcome=False, tweak=None, sizes=(350, 6000),
+                           fault_bases=(40, 400), conflict_frac=0.15, keep=None):
+    """snapshots + single-fault variants through the real controller; monitor on every observation;
+    projected correspondence with the model.  monitor(sn, faulty) -> list of violated clauses."""
+    from props import gen, monitors
+    rng = ctx.rng
+    quick = depth == "quick"
+    n = sizes[0] if quick else sizes[1]
+    base = []
+    while len(base) < n:
+        sc = gen.gen_snapshot(rng)
+        if tweak:
+            sc = tweak(rng, sc)
+        if sc is None or (keep and not keep(sc)):
+            continue
+        base.append(sc)
+    outs = core.run_harness_parallel("reconcile", base, shards=16)
+    nb = fault_bases[0] if quick else fault_bases[1]
+    fscs = []
+    order = list(range(len(base)))
+    rng.shuffle(order)
+    for i in order[:nb]:
+        kinds = gen.KINDS if rng.random() < conflict_frac else [k for k in gen.KINDS if k != "conflict"]
+        fscs += gen.single_faults(base[i], outs[i]["steps"][0], kinds=kinds)
+    fouts = core.run_harness_parallel("reconcile", fscs, shards=16)
+    allsc, allout = base + fscs, outs + fouts
+    for k, (sc, out) in enumerate(zip(allsc, allout)):
+        obs = out["steps"][0]
+        faulty = k >= len(base)
+        ctx.evaluations += 1
+        ctx.count("result:" + obs["result"])
+        ctx.count("family:" + ("fault" if faulty else "snapshot"))
+        if faulty:
+            ctx.count("fault:" + sc["ops"][0]["faults"][0]["kind"])
+        sn = monitors.Snap(sc, obs)
+        if sn.ok:
+            ctx.count("policy:" + sn.set["policy"])
+            ctx.count("strategy:" + sn.set["strategy"])
+        bad = monitor(sn, faulty) if sn.ok else []
+        if obs["result"] == "panic":
+            bad = bad + ["the controller panicked: " + obs.get("msg", "")] if pid == "C15" else bad
+        if bad:
+            ctx.violations.append({"family": pid + "/reconcile", "input": sc, "observed": obs, "clauses": bad,
+                                   "signature": {"kind": pid, "clause": bad[0][:40]}})
+        writes = [c for c in obs["calls"] if c["verb"] not in ("list", "get")]
+        if writes:
+            ctx.nontriv([sc["api"], sc["cache"], sc["ops"]])
+    ctx.sample({"family": "snapshot", "cache_set": base[0]["cache"]["set"], "cache_pods": [p["name"] + ":" + p["phase"] for p in base[0]["cache"]["pods"]],
+                "calls": [fault_free_shape(c) for c in outs[0]["steps"][0]["calls"]], "result": outs[0]["steps"][0]["result"]})
+    if fscs:
+        ctx.sample({"family": "fault", "faults": fscs[0]["ops"][0]["faults"], "calls": [fault_free_shape(c) + (":" + c["err"] if c.get("err") else "") for c in fouts[0]["steps"][0]["calls"]],
+                    "result": fouts[0]["steps"][0]["result"]})
+    check_expr = "recon_check_proj %s %s" % (pi, "true" if cmp_outcome else "false")
+    nt, nm = correspond_proj(ctx, pid + "/reconcile", allsc, allout, check_expr, "recon_model_proj %s" % pi)
+    ctx.families[pid + "/reconcile"] = {"snapshots": len(base), "single_fault_variants": len(fscs), "compared_in_coq": nt,
+                                        "model_mismatches": nm, "projection": pi}
+
+
+def replay_case(case, monitor=None, pi="pi_all"):
+    from props import monitors
+    out = core.run_harness("reconcile", [case])[0]
+    obs = out["steps"][0]
+    t = render_case(case, obs, hashes_of(out), None)
+    mv = core.coq_eval("replay", IMPORTS, ["recon_model_proj %s (%s)" % (pi, t)]) if t else ["(no model term)"]
+    print("cache set     :", json.dumps(case["cache"]["set"]))
+    for p in case["cache"]["pods"]:
+        print("  cache pod   :", json.dumps(p))
+    for r in case["api"]["revs"]:
+        print("  api rev     :", json.dumps(r))
+    print("ops           :", json.dumps(case["ops"]))
+    print("implementation:", obs["result"], obs.get("msg", ""))
+    for c in obs["calls"]:
+        print("    ", fault_free_shape(c), c.get("err", ""), c.get("status") or "", c.get("rev", ""))
+    print("model         :", mv)
+    if monitor:
+        bad = monitor(monitors.Snap(case, obs), bool(case["ops"][0].get("faults")))
+        print("monitor       :", bad)
+        return 1 if bad else 0
+    return 0
